@@ -15,11 +15,13 @@ from libcst import (
     Import,
     ImportFrom,
     ImportStar,
+    IndentedBlock,
     MaybeSentinel,
     Module,
     RemovalSentinel,
     RemoveFromParent,
     SimpleStatementLine,
+    SimpleStatementSuite,
 )
 from libcst.codemod import CodemodContext, ContextAwareTransformer
 from libcst.codemod.visitors import AddImportsVisitor, GatherImportsVisitor, ImportItem
@@ -169,6 +171,14 @@ class RemoveImportsTransformer(CSTTransformer):
     ) -> None:
         super().__init__()
         self.import_items_to_be_removed = import_items_to_be_removed
+
+    # New imports are only ever added at module level: leave the imports inside
+    # functions, classes and existing `if`/`try` blocks of the source alone.
+    def visit_IndentedBlock(self, node: IndentedBlock) -> bool:
+        return False
+
+    def visit_SimpleStatementSuite(self, node: SimpleStatementSuite) -> bool:
+        return False
 
     def leave_Import(
         self, original_node: Import, updated_node: Import
